@@ -101,3 +101,19 @@ func parseAccountJSON(s string) (typ, id string) {
 	json.Unmarshal([]byte(s), &a)
 	return a.Type, a.ID
 }
+
+// Chain time of a case: two thirds of the cases live in 2030 (the future of any machine
+// that runs the checks), one third in 2021 (its past). Nothing in a replicated state
+// machine may depend on the wall clock; code that reads it instead of the block time
+// agrees with the block-time-based reference models in only one of the two eras.
+var epochFuture = time.Date(2030, 1, 1, 0, 0, 0, 0, time.UTC)
+var epochPast = time.Date(2021, 3, 4, 5, 6, 7, 0, time.UTC)
+
+func init() {
+	fw.BeforeCase = func(c *fw.Case) {
+		gen.Epoch = epochFuture
+		if c.Index%3 == 2 {
+			gen.Epoch = epochPast
+		}
+	}
+}
